@@ -33,6 +33,7 @@ type Violation struct {
 	Choices map[string]int    `json:"choices"`
 	Pos     string            `json:"pos,omitempty"`
 	Path    string            `json:"path,omitempty"`
+	weight  int
 }
 
 type inputVar struct {
@@ -750,30 +751,40 @@ func (r *Run) pathString() string {
 }
 
 // violation records a violation on the current path with a model of the current PC (∧ cond).
-func (r *Run) violationCond(label, msg string, cond *Term) {
+func (r *Run) violationCond(label, msg string, cond *Term) bool {
+	return r.violationCondW(label, msg, cond, 0)
+}
+
+// violationCondW: a witness of higher weight replaces an earlier one for the same label.
+func (r *Run) violationCondW(label, msg string, cond *Term, weight int) bool {
 	key := label
 	if r.knownCtx != "" {
 		key = "known:" + r.knownCtx + ":" + label
 	}
 	r.h.mu.Lock()
-	_, have := r.h.violations[key]
+	old, have := r.h.violations[key]
 	r.h.mu.Unlock()
-	if have {
-		return
+	if have && old.weight >= weight {
+		return true
 	}
 	m, res := r.model(cond, nil)
 	if res != "sat" {
 		if res == "unknown" {
 			r.h.noteOutcomeMsg("solver-unknown", "model for violation "+label)
 		}
-		return
+		return false
+	}
+	if r.lastPanic != "" {
+		msg += " (last Go panic on this path: " + r.lastPanic + ")"
 	}
 	v := &Violation{Harness: r.h.name, Label: label, Msg: msg, Known: r.knownCtx, Inputs: r.modelInputs(m), Choices: copyChoices(r.choices), Pos: r.curPos(), Path: r.pathString()}
+	v.weight = weight
 	r.h.mu.Lock()
-	if _, have := r.h.violations[key]; !have {
+	if old, have := r.h.violations[key]; !have || old.weight < weight {
 		r.h.violations[key] = v
 	}
 	r.h.mu.Unlock()
+	return true
 }
 
 func (r *Run) violation(label, msg string) { r.violationCond(label, msg, nil) }
